@@ -508,6 +508,10 @@ func (v *variablesVisitor) traverseNamedTypeNode(jsonValue *astjson.Value, typeN
 				v.renderVariableInvalidNestedTypeError(jsonValue, fieldTypeDefinitionNode.Kind, typeName, false)
 				return
 			}
+			if jsonValue.Type() == astjson.TypeNumber && !jsonNumberIsIntegral(jsonValue) {
+				v.renderVariableInvalidNestedTypeError(jsonValue, fieldTypeDefinitionNode.Kind, typeName, false)
+				return
+			}
 		}
 	case ast.NodeKindEnumTypeDefinition:
 		if jsonValue.Type() != astjson.TypeString {
@@ -530,4 +534,13 @@ func jsonNumberIsInt32(value *astjson.Value) bool {
 	}
 	f, err := value.Float64()
 	return err == nil && f == math.Trunc(f) && f >= math.MinInt32 && f <= math.MaxInt32
+}
+
+// jsonNumberIsIntegral reports whether a JSON number has no fractional part, as required for a numeric ID.
+func jsonNumberIsIntegral(value *astjson.Value) bool {
+	if _, err := value.Int64(); err == nil {
+		return true
+	}
+	f, err := value.Float64()
+	return err == nil && f == math.Trunc(f)
 }
